@@ -28,3 +28,27 @@ Proof.
   inversion H; subst. exists ranges. split; [reflexivity|]. split; [apply shard_partition; exact Hn|].
   rewrite shard_tool_fast_eq. reflexivity.
 Qed.
+
+(* accepted arguments always give at least one output file: the modulus of the
+   shard index is never 0 *)
+Lemma parse_args_nonempty o ranges outs c :
+  shard_parse_args o = Some (ranges, outs, c) -> outs <> [].
+Proof.
+  unfold shard_parse_args. destruct (parse_key_spec (o_fields o)); [|discriminate].
+  match goal with |- context [match ?X with Some _ => _ | None => _ end = _] => destruct X as [[|x0 l0]|] end; try discriminate.
+  destruct (parse_compression (o_compress o)); [|discriminate].
+  intros H. inversion H; subst. discriminate.
+Qed.
+
+(* with --prefix/--number the accepted names are the n distinct, sorted names *)
+Lemma parse_args_prefix_names o ranges outs c p n :
+  o_outputs o = [] -> o_prefix o = Some p -> o_number o = Some n ->
+  shard_parse_args o = Some (ranges, outs, c) -> outs = names p n /\ 0 < n.
+Proof.
+  intros H1 H2 H3. unfold shard_parse_args. rewrite H1, H2, H3.
+  destruct (parse_key_spec (o_fields o)); [|discriminate].
+  destruct (names p n) as [|x0 l0] eqn:E; [discriminate|].
+  destruct (parse_compression (o_compress o)); [|discriminate].
+  intros H. inversion H; subst. split; [reflexivity|].
+  destruct (N.eq_dec n 0) as [Z0|Z0]; [|lia]. subst. unfold names in E. simpl in E. discriminate.
+Qed.
